@@ -130,7 +130,7 @@ func valueUniverse(r *rand.Rand, u *Universe, n int) []V {
 	vals = append(vals, ABool(false), ABool(true))
 	for ord := range u.times {
 		vals = append(vals, ATime(ord, 0))
-		vals = append(vals, ATime(ord, 1+r.Intn(len(zoneTable)-1)))
+		vals = append(vals, ATime(ord, 1+r.Intn(genZones-1)))
 	}
 	small := func() V { return ANum(r.Intn(len(u.nums)), u.Reps(0)[0]) }
 	_ = small
@@ -397,9 +397,12 @@ func auxScan(r *rand.Rand, n int, emit func(E), stats map[string]int) {
 		m := r.Intn(8)
 		entries := make([]interface{}, 0)
 		tx, _ := b.st.Begin(true)
-		idx := index.CreateIndex("c", "x", index.SingleField, tx).(index.RangeIndex)
-		sib := index.CreateIndex("c", "xy", index.SingleField, tx)
-		oth := index.CreateIndex("cc", "x", index.SingleField, tx)
+		// names of many lengths: key prefixes of different sizes
+		coll := []string{"c", "cc", "todos", "a b", "customer_orders_archive", "üñí", "collection-with-a-rather-long-name"}[r.Intn(7)]
+		field := []string{"x", "userId", "region", "n.a", "k", "a.b.c", "timestamp"}[r.Intn(7)]
+		idx := index.CreateIndex(coll, field, index.SingleField, tx).(index.RangeIndex)
+		sib := index.CreateIndex(coll, field+"y", index.SingleField, tx)
+		oth := index.CreateIndex(coll+"c", field, index.SingleField, tx)
 		for i := 0; i < m; i++ {
 			v := vals[r.Intn(len(vals))]
 			id := uuidPool[i]
@@ -418,7 +421,7 @@ func auxScan(r *rand.Rand, n int, emit func(E), stats map[string]int) {
 				panic(err)
 			}
 			tx, _ = b.st.Begin(false)
-			idx = index.CreateIndex("c", "x", index.SingleField, tx).(index.RangeIndex)
+			idx = index.CreateIndex(coll, field, index.SingleField, tx).(index.RangeIndex)
 		}
 		scans := 60
 		for k := 0; k < scans; k++ {
@@ -475,7 +478,7 @@ func auxScan(r *rand.Rand, n int, emit func(E), stats map[string]int) {
 			if committed {
 				phase = "committed"
 			}
-			emit(E{"kind": "scan", "be": be, "phase": phase, "entries": entries, "range": rg, "reverse": reverse, "stop": stop,
+			emit(E{"kind": "scan", "be": be, "phase": phase, "coll": coll, "field": field, "entries": entries, "range": rg, "reverse": reverse, "stop": stop,
 				"obs": obs, "calls": calls, "err": errS, "panicked": panicked})
 			stats["scan/"+be+"/"+phase]++
 		}
